@@ -343,6 +343,156 @@ Proof.
   apply construct_wf; [exact EO|discriminate|]. apply table_args_ok. apply TO. reflexivity.
 Qed.
 
+(* ---------------------------------------------------------------- to_arrow(columns=...) *)
+Definition has_id (cols : list col) : bool := existsb (fun c => match c with CId => true | _ => false end) cols.
+Definition has_num (cols : list col) : bool := existsb (fun c => match c with CNum => true | _ => false end) cols.
+Definition has_name (f : fname) (cols : list col) : bool :=
+  existsb (fun c => match c with CName g => Nat.eqb g f | _ => false end) cols.
+
+(* whatever the order of the columns: the readers only fill caches, and each part of the table holds
+   what its name says (for the list the conversion started from) *)
+Lemma arrow_cols_gen env l0 : env_ok env -> forall cols l t0 l' rt,
+  wf env l -> same_view env l0 l -> arrow_cols env l cols t0 = (l', rt) ->
+  wf env l' /\ same_view env l0 l' /\
+  forall t, rt = Ok t ->
+    (if has_id cols then exists i, get_ids env l0 = Ok i /\ t_ids t = Some i else t_ids t = t_ids t0) /\
+    (if has_num cols then exists n, get_nums env l0 MError = Ok n /\ t_nums t = Some n else t_nums t = t_nums t0) /\
+    (if has_name F_RANK cols then t_rank t = get_ranks l0 else t_rank t = t_rank t0) /\
+    (forall f, f <> F_RANK ->
+       lookup f (t_fields t) = if has_name f cols && is_some (get_field l0 f) then get_field l0 f else lookup f (t_fields t0)) /\
+    (NoDup (map fst (t_fields t0)) -> NoDup (map fst (t_fields t))) /\
+    (lookup F_RANK (t_fields t0) = None -> lookup F_RANK (t_fields t) = None).
+Proof.
+  intros EO. induction cols as [|c r IH]; intros l t0 l' rt W V; cbn [arrow_cols].
+  - intro E. injection E as <- <-. split; [exact W|]. split; [exact V|].
+    intros t E. injection E as <-. cbn. repeat split; auto.
+  - destruct c as [| |f].
+    + (* item_id *)
+      pose proof (force_ids_wf env l EO W) as W1. pose proof (force_ids_view env l W) as V1.
+      unfold force_ids in *. destruct (get_ids env l) as [i|e] eqn:G; cbn [fst] in *.
+      * intro E. destruct (IH _ (t_put_ids t0 i) _ _ W1 (same_view_trans _ _ _ _ V V1) E) as [W2 [V2 S]].
+        split; [exact W2|]. split; [exact V2|]. intros t Et. destruct (S t Et) as [A [B [C [D [N R]]]]].
+        cbn [has_id has_num has_name existsb orb]. fold (has_id r). fold (has_num r). fold (has_name F_RANK r).
+        split; [|split; [exact B|split; [exact C|split; [|split; [exact N|exact R]]]]].
+        -- assert (G0 : get_ids env l0 = Ok i) by (destruct V as [_ [_ [_ [_ [Vi _]]]]]; rewrite <- Vi; exact G).
+           destruct (has_id r); [exact A|]. exists i. split; [exact G0|]. rewrite A. reflexivity.
+        -- intros f NF. cbn [existsb orb]. fold (has_name f r). apply D. exact NF.
+      * intro E. injection E as <- <-. split; [exact W1|]. split; [eapply same_view_trans; eassumption|]. discriminate.
+    + (* item_num *)
+      pose proof (force_nums_wf env l MError EO W) as W1. pose proof (force_nums_view env l MError W) as V1.
+      unfold force_nums in *. destruct (raw_nums env l) as [n|e] eqn:G; cbn [fst] in *.
+      * destruct (apply_missing MError n) as [n'|e] eqn:AM.
+        -- intro E. destruct (IH _ (t_put_nums t0 n') _ _ W1 (same_view_trans _ _ _ _ V V1) E) as [W2 [V2 S]].
+           split; [exact W2|]. split; [exact V2|]. intros t Et. destruct (S t Et) as [A [B [C [D [N R]]]]].
+           cbn [has_id has_num has_name existsb orb]. fold (has_id r). fold (has_num r). fold (has_name F_RANK r).
+           split; [exact A|split; [|split; [exact C|split; [|split; [exact N|exact R]]]]].
+           ++ assert (G0 : get_nums env l0 MError = Ok n').
+              { unfold get_nums. destruct V as [_ [_ [_ [_ [_ [Vn _]]]]]]. rewrite <- Vn, G. cbn [bind]. exact AM. }
+              destruct (has_num r); [exact B|]. exists n'. split; [exact G0|]. rewrite B. reflexivity.
+           ++ intros f NF. cbn [existsb orb]. fold (has_name f r). apply D. exact NF.
+        -- intro E. injection E as <- <-. split; [exact W1|]. split; [eapply same_view_trans; eassumption|]. discriminate.
+      * intro E. injection E as <- <-. split; [exact W1|]. split; [eapply same_view_trans; eassumption|]. discriminate.
+    + destruct (Nat.eqb f F_RANK) eqn:FR.
+      * (* rank *)
+        apply Nat.eqb_eq in FR. subst f.
+        pose proof (force_ranks_wf env l W) as W1. pose proof (force_ranks_view env l) as V1.
+        intro E. destruct (IH _ (t_put_rank t0 (get_ranks (force_ranks l))) _ _ W1 (same_view_trans _ _ _ _ V V1) E) as [W2 [V2 S]].
+        split; [exact W2|]. split; [exact V2|]. intros t Et. destruct (S t Et) as [A [B [C [D [N R]]]]].
+        cbn [has_id has_num has_name existsb orb]. fold (has_id r). fold (has_num r). fold (has_name F_RANK r).
+        rewrite Nat.eqb_refl. cbn [orb].
+        split; [exact A|split; [exact B|split; [|split; [|split; [exact N|exact R]]]]].
+        -- destruct (has_name F_RANK r); [exact C|]. rewrite C. cbn [t_put_rank t_rank].
+           destruct V as [_ [_ [_ [_ [_ [_ Vr]]]]]]. destruct V1 as [_ [_ [_ [_ [_ [_ Vr1]]]]]]. congruence.
+        -- intros f NF. cbn [existsb orb]. fold (has_name f r).
+           assert (FE : Nat.eqb F_RANK f = false) by (apply Nat.eqb_neq; congruence). rewrite FE. cbn [orb]. apply D. exact NF.
+      * (* a field *)
+        apply Nat.eqb_neq in FR.
+        assert (GF : get_field l f = get_field l0 f) by (unfold get_field; destruct V as [_ [_ [_ [Vf _]]]]; rewrite Vf; reflexivity).
+        intro E.
+        destruct (IH _ (match get_field l f with Some vs => t_put_field t0 f vs | None => t0 end) _ _ W V E) as [W2 [V2 S]].
+        split; [exact W2|]. split; [exact V2|]. intros t Et. destruct (S t Et) as [A [B [C [D [N R]]]]].
+        cbn [has_id has_num has_name existsb orb]. fold (has_id r). fold (has_num r). fold (has_name F_RANK r).
+        assert (FE : Nat.eqb f F_RANK = false) by (apply Nat.eqb_neq; exact FR). rewrite FE. cbn [orb].
+        split; [|split; [|split; [|split; [|split]]]].
+        -- destruct (has_id r); [exact A|]. rewrite A. destruct (get_field l f); reflexivity.
+        -- destruct (has_num r); [exact B|]. rewrite B. destruct (get_field l f); reflexivity.
+        -- destruct (has_name F_RANK r); [exact C|]. rewrite C. destruct (get_field l f); reflexivity.
+        -- intros g NG. cbn [existsb orb]. fold (has_name g r). rewrite (D g NG).
+           destruct (Nat.eqb f g) eqn:FG.
+           ++ apply Nat.eqb_eq in FG. subst g. cbn [orb]. rewrite <- GF.
+              destruct (get_field l f) as [vs|] eqn:GL; cbn [is_some]; rewrite ?andb_true_r, ?andb_false_r; [|reflexivity].
+              destruct (has_name f r); [reflexivity|]. cbn [t_put_field t_fields]. rewrite lookup_dict_set, Nat.eqb_refl. reflexivity.
+           ++ cbn [orb]. destruct (has_name g r && is_some (get_field l0 g)); [reflexivity|].
+              destruct (get_field l f); [|reflexivity]. cbn [t_put_field t_fields]. rewrite lookup_dict_set.
+              rewrite Nat.eqb_sym, FG. reflexivity.
+        -- intro ND. apply N. destruct (get_field l f); [|exact ND]. cbn [t_put_field t_fields]. apply dict_set_nodup. exact ND.
+        -- intro NR. apply R. destruct (get_field l f); [|exact NR]. cbn [t_put_field t_fields]. rewrite lookup_dict_set.
+           assert (FE2 : Nat.eqb F_RANK f = false) by (apply Nat.eqb_neq; congruence). rewrite FE2. exact NR.
+Qed.
+
+Lemma arrow_cols_table_ok env l cols l' t (kv : bool) :
+  env_ok env -> wf env l -> arrow_cols env l cols t_none = (l', Ok t) ->
+  table_ok env (if kv then vocab l else None) t.
+Proof.
+  intros EO W E. destruct (arrow_cols_gen env l EO cols l t_none l' (Ok t) W (same_view_refl env l) E) as [_ [_ S]].
+  destruct (S t eq_refl) as [A [B [C [_ [N R]]]]]. split; [|split; [|split]].
+  - intros i n v Ei En Ev. destruct kv; [|discriminate].
+    destruct (has_id cols); [|rewrite A in Ei; discriminate]. destruct A as [i' [GI Ei']].
+    destruct (has_num cols); [|rewrite B in En; discriminate]. destruct B as [n' [GN En']].
+    assert (i' = i) by congruence. assert (n' = n) by congruence. subst i' n'.
+    revert GN. unfold get_nums. destruct (raw_nums env l) as [rn|] eqn:RN; cbn [bind]; [|discriminate].
+    intro AM. apply apply_missing_length in AM. subst rn. apply (raw_corr env l v i n EO W Ev GI RN).
+  - intros r Er. destruct (has_name F_RANK cols); [|rewrite C in Er; discriminate].
+    rewrite C in Er. pose proof (co_ranks _ _ (coherent_of_wf env l EO W)) as CR. rewrite Er in CR.
+    destruct (ordered l); [|discriminate]. injection CR as ->. rewrite seq1_length. reflexivity.
+  - apply R. reflexivity.
+  - apply N. constructor.
+Qed.
+
+Lemma empty_cols_table_ok env voc cols : forall t, table_ok env voc t ->
+  (forall i, t_ids t = Some i -> i = []) -> (forall n, t_nums t = Some n -> n = []) -> table_ok env voc (empty_cols cols t).
+Proof.
+  unfold table_ok. induction cols as [|c r IH]; intros t T HI HN; cbn [empty_cols]; [exact T|].
+  destruct T as [TC [TR [TN TK]]].
+  destruct c as [| |f].
+  - apply IH; cbn [t_put_ids t_ids t_nums t_rank t_fields].
+    + split; [|split; [exact TR|split; [exact TN|exact TK]]].
+      intros i n v Ei En Ev. injection Ei as <-. rewrite (HN n En). reflexivity.
+    + intros i Ei. injection Ei as <-. reflexivity.
+    + exact HN.
+  - apply IH; cbn [t_put_nums t_ids t_nums t_rank t_fields].
+    + split; [|split; [exact TR|split; [exact TN|exact TK]]].
+      intros i n v Ei En Ev. injection En as <-. rewrite (HI i Ei). reflexivity.
+    + exact HI.
+    + intros n En. injection En as <-. reflexivity.
+  - destruct (Nat.eqb f F_RANK) eqn:FR.
+    + apply IH; cbn [t_put_rank t_ids t_nums t_rank t_fields]; [|exact HI|exact HN].
+      split; [exact TC|split; [|split; [exact TN|exact TK]]]. intros r0 Er. injection Er as <-. reflexivity.
+    + apply IH; cbn [t_put_field t_ids t_nums t_rank t_fields]; [|exact HI|exact HN].
+      split; [exact TC|split; [exact TR|split]].
+      * rewrite lookup_dict_set. rewrite Nat.eqb_sym, FR. exact TN.
+      * apply dict_set_nodup. exact TK.
+Qed.
+
+Lemma via_arrow_cols_wf env l cols kv l' r :
+  env_ok env -> wf env l -> via_arrow_cols env l cols kv = (l', r) ->
+  wf env l' /\ same_view env l l' /\ forall x, r = Ok x -> wf env x.
+Proof.
+  intros EO W. unfold via_arrow_cols. destruct (len l =? 0)%nat.
+  - intro E. injection E as <- <-. split; [exact W|]. split; [apply same_view_refl|].
+    intros x. cbn [bind]. destruct (negb _ && negb _); [discriminate|].
+    apply construct_wf; [exact EO|discriminate|]. apply table_args_ok. apply empty_cols_table_ok.
+    + split; [|split; [|split]]; cbn; try discriminate; [reflexivity|constructor].
+    + discriminate.
+    + discriminate.
+  - destruct (arrow_cols env l cols t_none) as [l1 rt] eqn:T.
+    destruct (arrow_cols_gen env l EO cols l t_none l1 rt W (same_view_refl env l) T) as [W1 [V1 _]].
+    intro E. injection E as <- <-. split; [exact W1|]. split; [exact V1|].
+    intros x. destruct rt as [t|e]; cbn [bind]; [|discriminate].
+    destruct (negb _ && negb _); [discriminate|].
+    apply construct_wf; [exact EO|discriminate|]. apply table_args_ok. apply (arrow_cols_table_ok env l cols l1 t kv EO W T).
+Qed.
+
 (* ---------------------------------------------------------------- operation sequences *)
 Definition op_ok (env : envt) (ls : list ilist) (o : op) : Prop :=
   match o with
@@ -368,7 +518,7 @@ Proof.
   intros EO H OK.
   assert (NTH : forall k l, nth_error ls k = Some l -> wf env l).
   { intros k l E. rewrite Forall_forall in H. apply H. eapply nth_error_In. exact E. }
-  destruct o as [a|k a|k s|k|k m|k|k v m|k|k wi wn|k wi wn]; cbn [step op_ok] in *.
+  destruct o as [a|k a|k s|k|k m|k|k v m|k|k wi wn|k wi wn|k cols kv]; cbn [step op_ok] in *.
   - apply push_wf; [exact H|]. intros l E. apply (construct_wf env None a l EO); [discriminate|exact OK|exact E].
   - destruct (nth_error ls (k mod length ls)) as [s|] eqn:N; [|exact H].
     apply push_wf; [exact H|]. intros l E.
@@ -398,6 +548,10 @@ Proof.
   - destruct (nth_error ls (k mod length ls)) as [l|] eqn:N; [|exact H].
     destruct (via_arrow env l wi wn) as [l' r] eqn:V.
     destruct (via_arrow_wf env l wi wn l' r EO (NTH _ _ N) V) as [W1 [_ WR]].
+    apply push_wf; [apply forall_update; assumption|exact WR].
+  - destruct (nth_error ls (k mod length ls)) as [l|] eqn:N; [|exact H].
+    destruct (via_arrow_cols env l cols kv) as [l' r] eqn:V.
+    destruct (via_arrow_cols_wf env l cols kv l' r EO (NTH _ _ N) V) as [W1 [_ WR]].
     apply push_wf; [apply forall_update; assumption|exact WR].
 Qed.
 
